@@ -9,6 +9,7 @@ import (
 	"os"
 	"strconv"
 	"strings"
+	"time"
 )
 
 // Rand is splitmix64; every random choice of a run derives from one seed.
@@ -191,6 +192,11 @@ type Prop struct {
 	Nontrivial func(c, res string) bool
 	// PanicClass maps a recovered panic value to a class token (optional).
 	PanicClass func(v interface{}) string
+	// Neighbours emits valid case lines "near" a given case (same function and configuration,
+	// perturbed input). Optional. Used by "hunt": when model and implementation disagree on a
+	// case but the oracle is silent, the oracle is run on the neighbourhood of the disagreeing
+	// cases to find a concrete input on which the property itself fails.
+	Neighbours func(c string, r *Rand, emit func(string))
 }
 
 func (p Prop) exec(c string, w *bufio.Writer) {
@@ -269,6 +275,39 @@ func Main(p Prop) {
 				continue
 			}
 			p.exec(c, w)
+		}
+	case "hunt":
+		// hunt <seed> <seconds>: case lines on stdin; explore their neighbourhoods round-robin
+		if p.Neighbours == nil {
+			return
+		}
+		seed, _ := strconv.ParseUint(os.Args[2], 10, 64)
+		secs, _ := strconv.Atoi(os.Args[3])
+		deadline := time.Now().Add(time.Duration(secs) * time.Second)
+		r := NewRand(seed)
+		var cases []string
+		sc := bufio.NewScanner(os.Stdin)
+		sc.Buffer(make([]byte, 1<<20), 1<<28)
+		for sc.Scan() {
+			if sc.Text() != "" {
+				cases = append(cases, sc.Text())
+			}
+		}
+		seen := map[string]bool{}
+		for len(cases) > 0 && time.Now().Before(deadline) {
+			for _, c := range cases {
+				p.Neighbours(c, r, func(nc string) {
+					if seen[nc] || strings.ContainsAny(nc, "\t\n") {
+						return
+					}
+					seen[nc] = true
+					p.exec(nc, w)
+				})
+				w.Flush()
+				if !time.Now().Before(deadline) {
+					break
+				}
+			}
 		}
 	default:
 		fmt.Fprintln(os.Stderr, "unknown subcommand")
